@@ -319,6 +319,13 @@ Elem(m0, name) ==      \* m0: the element item already removed from ctl
               ELSE PushRes(p[2], Mo("bool", p[1]))
       [] name \in DyadKeys ->
            LET p == PopN(m0, 2) IN PushRes(p[2], Dyad(name, p[1][2], p[1][1]))
+      \* head / tail extract push TWO results
+      [] name = "hext" -> LET p == Pop1(m0)
+                          IN IF ~IsL(p[1]) THEN Undef(m0, "extract-of-scalar")
+                             ELSE Push(PushRes(p[2], Monad("head", p[1])), Monad("hrem", p[1]))
+      [] name = "text" -> LET p == Pop1(m0)
+                          IN IF ~IsL(p[1]) THEN Undef(m0, "extract-of-scalar")
+                             ELSE Push(PushRes(p[2], Monad("trem", p[1])), Monad("tail", p[1]))
       [] name = "dup" -> LET p == Pop1(m0) IN Push(Push(p[2], p[1]), p[1])
       [] name = "trip" -> LET p == Pop1(m0) IN Push(Push(Push(p[2], p[1]), p[1]), p[1])
       [] name = "pop" -> Pop1(m0)[2]
